@@ -1,5 +1,6 @@
 import json, os, sys
-from harness import registry
+import importlib
+HOOK_COMMITS = [l.strip() for l in open(os.path.join(os.path.dirname(os.path.dirname(os.path.dirname(os.path.abspath(__file__)))), 'hooks_commits.txt')) if l.strip()]
 VERIF = os.path.dirname(os.path.dirname(os.path.dirname(os.path.abspath(__file__))))
 
 def main():
@@ -7,12 +8,14 @@ def main():
     checks, na = [], []
     for p in props:
         pid = p["id"]
-        ok = (pid in registry.CHECKS and os.path.exists(os.path.join(VERIF, "harness", pid.lower() + ".py"))
+        ok = (os.path.exists(os.path.join(VERIF, "harness", pid.lower() + ".py"))
               and os.path.exists(os.path.join(VERIF, "coq", "Props", pid + ".v")))
-        if not ok:
-            na.append({"property_id": pid, "reason": registry.NOT_YET.get(pid, "model, theorems and correspondence driver not built yet (see DESIGN.md §8); not claimed until they exist") if hasattr(registry, "NOT_YET") else "model, theorems and correspondence driver not built yet (see DESIGN.md §8); not claimed until they exist"})
+        c = None
+        if ok:
+            c = getattr(importlib.import_module("harness." + pid.lower()), "MANIFEST", None)
+        if not c:
+            na.append({"property_id": pid, "reason": "model, theorems and correspondence driver not finished yet (see DESIGN.md §8); not claimed until they exist and pass on the unchanged tree"})
             continue
-        c = registry.CHECKS[pid]
         checks.append({
             "property_id": pid,
             "quick_cmd": "./check %s --tier quick" % pid,
@@ -26,12 +29,12 @@ def main():
         })
     m = {
         "version": 1,
-        "setup_cmd": "cd /verif/coq && coq_makefile -f _CoqProject -o Makefile && timeout 3000 make -j16",
+        "setup_cmd": "cd /verif/coq && ./mkproject.sh && timeout 3000 make -j16",
         "hooks": {
             "guard": "NIPYPE_PYDRA_VERIF",
             "enable": "export NIPYPE_PYDRA_VERIF=1 (done by /verif/check); the package is imported from /repo's working tree via PYTHONPATH=/repo, nothing is built",
             "baseline_off_cmd": "cd /repo && env -u NIPYPE_PYDRA_VERIF /venv/bin/python -m pytest -ra -q -p no:cacheprovider --timeout=900 --continue-on-collection-errors",
-            "source_commits": getattr(registry, "HOOK_COMMITS", []),
+            "source_commits": HOOK_COMMITS,
             "add_only": True,
         },
         "engines": [{
